@@ -77,6 +77,12 @@ func cmpValues(tier string) []*cmpVal {
 		}
 	}
 	os = append(os, mkSpecial(fZero, false, 0, 0), mkSpecial(fZero, true, 5, 0), mkSpecial(fInf, false, 3, 0), mkSpecial(fInf, true, 0, 0))
+	// zeros and infinities living in variables that held a finite value before (mant/exp are stale, documented as ignored)
+	for k := 1; k < len(staleKinds); k++ {
+		for _, f := range []int8{fZero, fInf} {
+			os = append(os, mkSpecial(f, false, 7, 0).withStale(int8(k)), mkSpecial(f, true, 7, 0).withStale(int8(k)))
+		}
+	}
 	vals := make([]*cmpVal, len(os))
 	for i, o := range os {
 		vals[i] = &cmpVal{o: o, d: decorated(o, i%4), desc: o.String()}
@@ -123,7 +129,7 @@ func cmpLayers(tier string) []Layer {
 	layers = append(layers, Layer{
 		Name:   "O1-pairs",
 		Units:  n,
-		Bounds: fmt.Sprintf("all ordered pairs over %d values: ±D(2)×10^[-2..2], ±W(3,S7) plain / with an extra low zero word / with a differing lowest word, run-length strings, range-end exponents, ±0, ±Inf; each value decorated (mode, larger precision, non-Exact accuracy from a real rounding)", n),
+		Bounds: fmt.Sprintf("all ordered pairs over %d values: ±D(2)×10^[-2..2], ±W(3,S7) plain / with an extra low zero word / with a differing lowest word, run-length strings, range-end exponents, ±0, ±Inf (also in variables that held 1, 1e-7, a 3-word value, 5e5 before); each value decorated (mode, larger precision, non-Exact accuracy from a real rounding)", n),
 		Run: func(c *Ctx, u int) {
 			vs := get()
 			x := vs[u]
